@@ -62,6 +62,12 @@ def fault_atoms():
         [["sub_raise", "conn", 1]],
         [["fin"], ["net", "refuse", 0.0]],
         [["rst"], ["net", "refuse", 0.0], ["net", "refuse", 0.0]],
+        [["reset"]],                                   # public reset_connection() (heartbeat)
+        [["net", "refuse", 0.0], ["fin"], ["adv", 0.5], ["reset"]],   # ... during the back-off
+        [["stall"], ["send", "zone_ctrl", "idem", "t3"], ["turns", 2], ["fin"], ["unstall"]],
+        [["stall"], ["send", "ac_ctrl", "idem", "t3"], ["send", "zone_ctrl", "long", "t2"],
+         ["turns", 2], ["rst"]],
+        [["wfail", 1, "timeout"]], [["wfail", 2, "oserror"]], [["wfail", 1, "reset"]],
     ]
 
 
